@@ -1,9 +1,17 @@
-(* C17 - packages cannot observe or mutate each other's values: what Freeze guarantees and what it does not. *)
+(* C17 - packages cannot observe or mutate each other's values: the property on whole interpreter runs, the
+   refuting witnesses, the regression examples of the two classes repaired in /repo 7aeabfa, and what the
+   primitives guarantee for all heaps.  The whole-program frame theorem is in Proof/C17_Main.v. *)
 From Coq Require Import String Lia.
-From PlzV Require Import Base.Harness Model.C16_Syntax Model.C16_Ops Model.C16_Prim Model.C16_Eval Model.C16.
-From PlzV Require Import Proof.C16.
+From PlzV Require Import Base.Harness Gen.C17Freeze Model.C16_Syntax Model.C16_Ops Model.C16_Prim Model.C16_Eval Model.C16.
 Local Open Scope list_scope.
 Local Open Scope Z_scope.
+
+(* the shapes of src/parse/asp/objects.go the model was written from are still the ones in /repo (regenerated) *)
+Lemma gen_pins : list_add_allocates = true /\ freeze_list_is_shallow = true /\ freeze_dict_copies = true /\ frozen_index_assign_panics = true.
+Proof. repeat split. Qed.
+
+Definition lit (z : Z) : expr := Ex (XInt z) [] None.
+Definition ints (l : list Z) : vexpr := XList (map lit l).
 
 (* ---- the property on one interpreter: package P2 parsed alone, and after package P1 ---- *)
 Definition after_of (o : outcome) : option (list (str * obs)) := match o with OGlobals a _ => Some a | _ => None end.
@@ -56,7 +64,24 @@ Definition d_filt : prog :=
 Definition v1 : prog := [sub; SAssign (s "a") (Ex (XIdent (s "FILT")) [OBin Add (ints [9])] None)].
 Definition v2 : prog := [sub; SAssign (s "b") (Ex (XIdent (s "FILT")) [OBin Add (ints [8])] None)].
 
-Lemma spare_capacity_interferes : no_interference FUEL [(lbl, d_filt)] v1 v2 = false.
+(* repaired in /repo 7aeabfa (list + always allocates): no interference any more *)
+Lemma spare_capacity_fixed : no_interference FUEL [(lbl, d_filt)] v1 v2 = true.
+Proof. vm_compute. reflexivity. Qed.
+
+(* build_defs:  FLAT = [3, 1, 2]      package:  x = FLAT + []; x[0] = 99      (before 7aeabfa x WAS the exported list) *)
+Definition d_plain : prog := [SAssign (s "FLAT") (Ex (ints [3; 1; 2]) [] None)].
+Definition y1 : prog := [sub; SAssign (s "x") (Ex (XIdent (s "FLAT")) [OBin Add (XList [])] None); SIdxAssign (s "x") (lit 0) (lit 99)].
+Definition y2 : prog := [sub; SAssign (s "seen") (id_ "FLAT")].
+
+Lemma plus_empty_fixed : no_interference FUEL [(lbl, d_plain)] y1 y2 = true.
+Proof. vm_compute. reflexivity. Qed.
+
+(* build_defs:  def dflt(q=[7, 8]): return q      packages:  q = dflt(); q[0] = 9   /   q2 = dflt() *)
+Definition d_dflt : prog := [SDef (s "dflt") [(s "q", Some (Ex (ints [7; 8]) [] None))] [SReturn (Some (id_ "q"))]].
+Definition z1 : prog := [sub; SAssign (s "q") (Ex (XCall (s "dflt") []) [] None); SIdxAssign (s "q") (lit 0) (lit 9)].
+Definition z2 : prog := [sub; SAssign (s "q2") (Ex (XCall (s "dflt") []) [] None)].
+
+Lemma default_interferes : no_interference FUEL [(lbl, d_dflt)] z1 z2 = false.
 Proof. vm_compute. reflexivity. Qed.
 
 (* build_defs:  def mk(): return [1, 2, 3]      packages:  m = mk(); m[0] = 9   /   m2 = mk() *)
@@ -122,28 +147,13 @@ Proof.
   now apply list_set_commute.
 Qed.
 
-(* a frozen list whose slice has no spare capacity is read-only for every operation a package can apply to it:
-   index assignment fails, and + (the only other operation that writes through its left operand) writes no existing array *)
-Theorem frozen_full_list_is_readonly : forall st sl,
-  s_cap sl = s_len sl -> (s_off sl + s_len sl <= length (arr_of st (s_arr sl)))%nat ->
+(* a frozen list is read-only for every operation a package can apply to it: index assignment fails, and + (the
+   only other operation that takes it as the operand written to) allocates its result and writes no existing array *)
+Theorem frozen_list_is_readonly : forall st sl,
   (forall idx v, vindex_assign Asp st (VFrozenList sl) idx v = Err EType)
   /\ (forall items2, let '(r, st') := list_add Asp sl items2 st in
-        forall a, (a < length (arrays st))%nat -> arr_of st' a = arr_of st a).
+        s_arr r = length (arrays st) /\ forall a, (a < length (arrays st))%nat -> arr_of st' a = arr_of st a).
 Proof.
-  intros st sl Hcap Hwf. split; [reflexivity|]. intros items2.
-  destruct items2 as [|x items2].
-  - (* l + []: append returns l itself *)
-    unfold list_add. cbn [length]. rewrite Nat.add_0_r. rewrite Hcap. rewrite Nat.leb_refl.
-    intros a Ha. unfold arr_write. cbn [write_cells]. unfold arr_of. cbn [arrays set_arrays].
-    fold (arr_of st (s_arr sl)). unfold arr_of. now rewrite list_set_same.
-  - pose proof (list_add_full_is_pure sl (x :: items2) st Hcap) as H.
-    destruct (list_add Asp sl (x :: items2) st) as [r st'].
-    destruct H as (_ & Hold & _); [discriminate|exact Hwf|]. exact Hold.
+  intros st sl. split; [reflexivity|]. intros items2. unfold list_add, alloc_list. cbn [s_arr]. split; [reflexivity|].
+  intros a Ha. unfold arr_of. cbn [arrays set_arrays]. now rewrite app_nth1.
 Qed.
-
-(* with spare capacity the same + DOES write the shared array (this is the second refuting class) *)
-Example frozen_spare_list_is_written :
-  let st := set_arrays [[VInt 1; VInt 2; VNone]] empty_state in
-  let '(r, st') := list_add Asp (Slice 0 0 2 3) [VInt 9] st in
-  arr_of st' 0 = [VInt 1; VInt 2; VInt 9] /\ s_arr r = 0%nat.
-Proof. vm_compute. split; reflexivity. Qed.
